@@ -270,6 +270,25 @@ fn run_case(rt: &tokio::runtime::Runtime, case: &Case) -> RunResult {
         }
         match op {
             Op::Fetched { hash } | Op::Remove { hash } => {
+                // the block has arrived (or is no longer wanted): at EVERY peer that tracked it one
+                // entry with that hash leaves the queued / in-flight / failed states
+                for (p, before) in &prev {
+                    let k_before = before.iter().filter(|e| e.1 == *hash && e.2 != 2).count();
+                    if k_before == 0 {
+                        continue;
+                    }
+                    let k_after = snap
+                        .iter()
+                        .find(|(pp, _)| pp == p)
+                        .map(|(_, v)| v.iter().filter(|e| e.1 == *hash && e.2 != 2).count())
+                        .unwrap_or(0);
+                    if k_after >= k_before {
+                        res.oracle_failures.push(format!(
+                            "op {} ({}): peer {} still tracks the block with hash {} as wanted after it was reported fetched / removed ({} entr(ies) before, {} after): it keeps a quota slot or is requested again",
+                            k, op.gallina(), p, hash, k_before, k_after
+                        ));
+                    }
+                }
                 in_flight.retain(|x| x.2 != *hash);
                 requested_total.retain(|x, _| x.2 != *hash);
             }
@@ -782,6 +801,97 @@ fn routed_unstartable_fetch_cases(rt: &tokio::runtime::Runtime, summary: &mut Su
     descs
 }
 
+/// The announce path: a BlockHeaderHash message handled by the real RoutingThread must lead to a
+/// fetch request unless the peer announced an OLDER wallet version than ours; a peer whose version
+/// is unknown (0.0.0) is served (oracle only).
+fn routed_announce_cases(rt: &tokio::runtime::Runtime, summary: &mut Summary, first_case: usize) -> Vec<String> {
+    use saito_core::core::msg::message::Message;
+    use saito_core::core::process::version::Version;
+    let mut descs = vec![];
+    let mut case_no = first_case;
+    // (our version, peer version, must be requested)
+    let table: Vec<((u8, u8, u16), (u8, u8, u16), bool)> = vec![
+        ((1, 2, 3), (0, 0, 0), true),
+        ((1, 2, 3), (1, 2, 3), true),
+        ((1, 2, 3), (1, 2, 4), true),
+        ((1, 2, 3), (1, 2, 2), false),
+        ((0, 0, 0), (0, 0, 0), true),
+    ];
+    for (ours, theirs, want) in table {
+        let desc = format!(
+            "{{\"case\":{},\"kind\":\"routed-announcement\",\"our_wallet_version\":[{},{},{}],\"peer_wallet_version\":[{},{},{}],\"must_be_requested\":{}}}",
+            case_no, ours.0, ours.1, ours.2, theirs.0, theirs.1, theirs.2, want
+        );
+        let outcome = catch_unwind(AssertUnwindSafe(|| {
+            rt.block_on(async {
+                let mut wal = Wallet::new([1u8; 32], [2u8; 33]);
+                wal.wallet_version = Version::new(ours.0, ours.1, ours.2);
+                let wallet = Arc::new(RwLock::new(wal));
+                let c = Params::default().cfg();
+                let cfg: Arc<RwLock<dyn Configuration + Send + Sync>> = Arc::new(RwLock::new(c));
+                let mut pc = PeerCollection::default();
+                let mut p = Peer::new(5);
+                p.block_fetch_url = "http://peer5/block/".to_string();
+                p.wallet_version = Version::new(theirs.0, theirs.1, theirs.2);
+                pc.index_to_peers.insert(5, p);
+                let peers = Arc::new(RwLock::new(pc));
+                let disk = Arc::new(Mutex::new(Disk::default()));
+                let timer = Timer { time_reader: Arc::new(FixedClock), hasten_multiplier: 1, start_time: 0 };
+                let blockchain = Arc::new(RwLock::new(Blockchain::new(wallet.clone(), 100, 0, 60)));
+                let mempool = Arc::new(RwLock::new(Mempool::new(wallet.clone())));
+                let (tx_cons, _rx_cons) = tokio::sync::mpsc::channel(1000);
+                let (tx_miner, _rx_miner) = tokio::sync::mpsc::channel(1000);
+                let (tx_stat, _rx_stat) = tokio::sync::mpsc::channel(100_000);
+                let (tx_verif, _rx_verif) = tokio::sync::mpsc::channel(1000);
+                let mut routing = RoutingThread {
+                    blockchain_lock: blockchain.clone(),
+                    mempool_lock: mempool.clone(),
+                    sender_to_consensus: tx_cons,
+                    sender_to_miner: tx_miner,
+                    config_lock: cfg.clone(),
+                    timer: timer.clone(),
+                    wallet_lock: wallet.clone(),
+                    network: Network::new(Box::new(MemIo::new(disk.clone())), peers.clone(), wallet.clone(), cfg.clone(), timer.clone()),
+                    storage: Storage::new(Box::new(MemIo::new(disk.clone()))),
+                    reconnection_timer: 0,
+                    peer_removal_timer: 0,
+                    peer_file_write_timer: 0,
+                    last_emitted_block_fetch_count: 0,
+                    stats: RoutingStats::new(tx_stat.clone()),
+                    senders_to_verification: vec![tx_verif],
+                    last_verification_thread_index: 0,
+                    stat_sender: tx_stat.clone(),
+                    blockchain_sync_state: BlockchainSyncState::new(2),
+                };
+                let buffer = Message::BlockHeaderHash(h32(77), 4).serialize();
+                routing.process_network_event(NetworkEvent::IncomingNetworkMessage { peer_index: 5, buffer }).await;
+                routing.process_timer_event(std::time::Duration::from_millis(2100)).await;
+                let requested = disk.lock().unwrap().fetches.iter().any(|f| unh(&f.0) == 77 && f.1 == 5);
+                requested
+            })
+        }));
+        summary.count("kind", "routed-announcement");
+        match outcome {
+            Err(_) => summary.oracle_failure(case_no, "routing layer panicked while handling a block announcement", &desc),
+            Ok(requested) => {
+                if requested != want {
+                    summary.oracle_failure(
+                        case_no,
+                        &format!(
+                            "block announced by a peer with wallet version {:?} to a node with wallet version {:?}: requested = {}, expected {}",
+                            theirs, ours, requested, want
+                        ),
+                        &desc,
+                    );
+                }
+            }
+        }
+        descs.push(desc);
+        case_no += 1;
+    }
+    descs
+}
+
 fn main() {
     let args = Args::parse();
     let mut rng = Rng::new(args.seed);
@@ -854,6 +964,12 @@ fn main() {
     let n_so_far = summary.case_descs.len();
     let routed2 = routed_unstartable_fetch_cases(&rt, &mut summary, n_so_far);
     for d in routed2 {
+        coq_cases.push("((1, [], []), [])".to_string());
+        summary.case_descs.push(d);
+    }
+    let n_so_far = summary.case_descs.len();
+    let routed3 = routed_announce_cases(&rt, &mut summary, n_so_far);
+    for d in routed3 {
         coq_cases.push("((1, [], []), [])".to_string());
         summary.case_descs.push(d);
     }
